@@ -1546,12 +1546,13 @@ func (g *Generator) generateHeaderGetters(gf *protogen.GeneratedFile, service *p
 // generateHeaderLiteral generates a header literal in Go code.
 func (g *Generator) generateHeaderLiteral(gf *protogen.GeneratedFile, header *http.Header) {
 	gf.P("{")
-	gf.P(`Name: "`, header.GetName(), `",`)
-	gf.P(`Description: "`, header.GetDescription(), `",`)
-	gf.P(`Type: "`, header.GetType(), `",`)
+	// Quote: descriptions and examples are free text and may contain quotes or backslashes
+	gf.P(`Name: `, strconv.Quote(header.GetName()), `,`)
+	gf.P(`Description: `, strconv.Quote(header.GetDescription()), `,`)
+	gf.P(`Type: `, strconv.Quote(header.GetType()), `,`)
 	gf.P(`Required: `, strconv.FormatBool(header.GetRequired()), `,`)
-	gf.P(`Format: "`, header.GetFormat(), `",`)
-	gf.P(`Example: "`, header.GetExample(), `",`)
+	gf.P(`Format: `, strconv.Quote(header.GetFormat()), `,`)
+	gf.P(`Example: `, strconv.Quote(header.GetExample()), `,`)
 	gf.P(`Deprecated: `, strconv.FormatBool(header.GetDeprecated()), `,`)
 	gf.P("},")
 }
